@@ -350,6 +350,14 @@ class SubchannelConnectorEndpoint:
             raise ValueError(
                 "subprotocol must be a non-empty str"
             )
+        try:
+            self._subprotocol.encode("utf-8")
+        except UnicodeEncodeError:
+            # found out now, not when the OPEN record (already queued for
+            # re-sending by then) is encoded for the wire
+            raise ValueError(
+                "subprotocol must be encodable as UTF-8"
+            )
 
     @inlineCallbacks
     def connect(self, protocolFactory):
